@@ -38,6 +38,7 @@ Inductive cstmt :=
 | SBe64 (dst off : N) (e : cexpr)          (* be64enc(dst + off, e); dst 0 = the local 8-byte array, 1 = stream->pblk *)
 | SMemcpy (off len : N)                    (* memcpy(stream->pblk + off, <the local 8-byte array>, len) *)
 | SVec                                     (* a statement over __m128i values (hand-modelled) *)
+| SAssert (e : cexpr)                      (* assert(e); *)
 | SUnknown.                                (* no form *)
 
 (* ---------------------------------------------------------------- types *)
@@ -206,20 +207,41 @@ Definition assign (e : env) (lv : N) (op : option binop) (x : cexpr) : env * boo
   let '(t, v, d) := eval e (match op with None => x | Some o => EBin o (EVar lv) x end) in
   let '(e', ok) := set e lv t v in (e', d && ok).
 
-(* the scalar statements of a list, in order; SBe64 / SMemcpy / SVec are the byte and vector
-   statements the model places itself and are skipped here; SUnknown has no meaning *)
-Fixpoint run (e : env) (l : list cstmt) {struct l} : env * bool :=
+(* the scalar statements of a list, in order: (variables afterwards, every evaluation was defined,
+   every assert held).  SBe64 / SMemcpy / SVec are the byte and vector statements the model places
+   itself and are skipped here; SUnknown has no meaning *)
+Fixpoint run (e : env) (l : list cstmt) {struct l} : env * bool * bool :=
   match l with
-  | [] => (e, true)
+  | [] => (e, true, true)
   | SAssign lv op x :: r =>
     let '(e', d) := assign e lv op x in
-    let '(e'', d') := run e' r in (e'', d && d')
-  | SUnknown :: _ => (e, false)
+    let '(e'', d', a') := run e' r in (e'', d && d', a')
+  | SAssert x :: r =>
+    let '(_, v, d) := eval e x in
+    let '(e', d', a') := run e r in (e', d && d', negb (v =? 0) && a')
+  | SUnknown :: _ => (e, false, true)
   | _ :: r => run e r
   end.
+Definition renv (r : env * bool * bool) : env := fst (fst r).
+Definition rdef (r : env * bool * bool) : bool := snd (fst r).
+Definition rok (r : env * bool * bool) : bool := snd r.
 
-Fixpoint all_assign (l : list cstmt) : bool :=
-  match l with [] => true | SAssign _ _ _ :: r => all_assign r | _ :: _ => false end.
+(* early exits `if (c) return;`: (some c is true, every c was defined) *)
+Fixpoint any_true (e : env) (l : list cexpr) {struct l} : bool * bool :=
+  match l with
+  | [] => (false, true)
+  | x :: r =>
+    let '(_, v, d) := eval e x in
+    let '(b, d') := any_true e r in (negb (v =? 0) || b, d && d')
+  end.
+
+Fixpoint all_scalar (l : list cstmt) : bool :=
+  match l with
+  | [] => true
+  | SAssign _ _ _ :: r => all_scalar r
+  | SAssert _ :: r => all_scalar r
+  | _ :: _ => false
+  end.
 
 (* the body of the AES-NI whole-block loop must be: be64enc(arr, e); vector statements; scalar
    statements - the positions the hand-written vector part of the model assumes *)
@@ -229,19 +251,34 @@ Definition body_parts (l : list cstmt) : option (cexpr * list cstmt) :=
   match l with
   | SBe64 0%N 0%N e :: r =>
     match r with
-    | SVec :: _ => let s := drop_vec r in if all_assign s then Some (e, s) else None
+    | SVec :: _ => let s := drop_vec r in if all_scalar s then Some (e, s) else None
     | _ => None
     end
   | _ => None
   end.
 
-(* the one memcpy of an epilogue; every other statement must be a scalar assignment *)
-Fixpoint the_memcpy (l : list cstmt) : option (N * N) :=
+(* the epilogue of the AES-NI whole-block function: scalar statements and exactly one statement that
+   writes the counter back into stream->pblk - memcpy(stream->pblk + off, arr, len) or
+   be64enc(stream->pblk + off, x) - which is evaluated where it stands *)
+Fixpoint count_writeback (l : list cstmt) : option nat :=
+  match l with
+  | [] => Some O
+  | SMemcpy _ _ :: r => match count_writeback r with Some n => Some (S n) | None => None end
+  | SBe64 1%N _ _ :: r => match count_writeback r with Some n => Some (S n) | None => None end
+  | SAssign _ _ _ :: r => count_writeback r
+  | SAssert _ :: r => count_writeback r
+  | _ :: _ => None
+  end.
+Inductive wback :=
+| WbCopy (off len : N)                     (* memcpy(stream->pblk + off, arr, len) *)
+| WbEnc (off : N) (v : Z) (d : bool).      (* be64enc(stream->pblk + off, <value v, defined d>) *)
+Fixpoint writeback (e : env) (l : list cstmt) {struct l} : option wback :=
   match l with
   | [] => None
-  | SMemcpy off len :: r => if all_assign r then Some (off, len) else None
-  | SAssign _ _ _ :: r => the_memcpy r
-  | _ :: _ => None
+  | SMemcpy off len :: _ => Some (WbCopy off len)
+  | SBe64 1%N off x :: _ => let '(_, v, d) := eval e x in Some (WbEnc off v d)
+  | SAssign lv op x :: r => writeback (fst (assign e lv op x)) r
+  | _ :: r => writeback e r
   end.
 
 (* variable numbering shared with the translator *)
